@@ -8,6 +8,7 @@ Three modes, all context managers that restore the previous state:
                           draws only (shuffle / choice / randrange)
 plus `spy_choices()`, a passive recorder of random.choices calls.
 """
+import math
 import random
 from contextlib import contextmanager
 from fractions import Fraction
@@ -23,7 +24,7 @@ class Uncontrolled(Exception):
     """Float RNG source used while enumerating integer draws."""
 
 
-def _install(rb=None, rnd=None):
+def _install(rb=None, rnd=None, raw=None):
     saved = (_inst.__dict__.get("_randbelow", None), _inst.__dict__.get("random", None), random.random,
              random.getrandbits, random.randbytes)
     if rb is not None:
@@ -31,14 +32,17 @@ def _install(rb=None, rnd=None):
     if rnd is not None:
         _inst.random = rnd
         random.random = rnd
+        if raw is None:
+            def raw(bits):
+                return rnd()
 
         # raw bit sources are derived from the (scripted) float source, so that code drawing through
         # random.getrandbits / random.randbytes is owned as well: k bits = floor(u * 2**k)
         def grb(k):
-            return int(rnd() * (1 << k)) if k > 0 else 0
+            return int(raw(k) * (1 << k)) if k > 0 else 0
 
         def rbytes(n):
-            return bytes(int(rnd() * 256) for _ in range(n))
+            return bytes(int(raw(8) * 256) for _ in range(n))
         random.getrandbits = grb
         random.randbytes = rbytes
     return saved
@@ -83,6 +87,10 @@ class Script:
         self.int_draws = 0
         self.float_draws = 0
         self.bounds = []
+        # entropy drawn so far, in bits, treating the source as ideal: log2(n) per integer draw below n, 53 per
+        # float, k per getrandbits(k).  A run that drew b bits ends in a leaf of probability 2**-b, so its outcome
+        # has probability at least 2**-b.
+        self.entropy_bits = 0.0
 
 
 @contextmanager
@@ -102,20 +110,22 @@ def scripted(ints=(), tail_seed=0, budget=None, floats=(), record_bounds=False):
             raise Budget()
         if record_bounds:
             info.bounds.append(n)
+        info.entropy_bits += math.log2(n) if n > 1 else 0.0
         if i < len(ints):
             return ints[i] % n
         return tail._randbelow(n)
 
-    def rnd():
+    def rnd(bits=53):
         i = info.float_draws
         info.float_draws += 1
         if budget is not None and info.int_draws + info.float_draws > budget:
             raise Budget()
+        info.entropy_bits += bits
         if i < len(floats):
             return floats[i]
         return tail.random()
 
-    saved = _install(rb, rnd)
+    saved = _install(rb, lambda: rnd(), raw=rnd)
     try:
         yield info
     finally:
